@@ -26,7 +26,11 @@ func writeReplay(u *Universe, st *SpecTables, d *Discharger, id string, o *Oblig
 	var sb strings.Builder
 	fmt.Fprintf(&sb, "property: %s\nfailed obligation: %s\nkind: %s\ninstance: %s\nwhere: %s\nsolver: %s\nanswer: %s\nnote: %s\n\n", id, o.Name, o.Kind, o.Instance, o.Where, o.Solver, o.Result, o.Note)
 	confirmed := false
-	if rep, ok := replayInstance(u, st, d, o, repo); rep != "" {
+	if id == "C16" && (o.Kind == "frame" || o.Kind == "g1") {
+		rep, ok := raceReplay(repo)
+		sb.WriteString("---- replay on the real code ----\n" + rep + "\n")
+		confirmed = ok
+	} else if rep, ok := replayInstance(u, st, d, o, repo); rep != "" {
 		sb.WriteString("---- replay on the real code ----\n")
 		sb.WriteString(rep)
 		sb.WriteString("\n")
